@@ -92,10 +92,39 @@ def gen_edges(rng, n):
     return edges
 
 
-def gen_axis(rng, *, max_bins=7, allow_gaps=True, families=None):
-    """A non-adaptive axis spec from one of the binning families."""
+SCALES = [1e-9, 1e-4, 1e6, 1e12, 2.0 ** 40, 3e-7]
+
+
+def scale_axis(spec, s):
+    """The same axis with all edges multiplied by s (magnitudes far from 1: 1e-9 ... 1e12)."""
+    spec = dict(spec)
+    if spec["kind"] == "static":
+        spec["bins"] = [[l * s, r * s] for l, r in spec["bins"]]
+        spec["bins"] = [b for b in spec["bins"] if b[0] < b[1]]
+    elif spec["kind"] == "numpy":
+        spec["edges"] = [e * s for e in spec["edges"]]
+    elif spec["kind"] == "fixed":
+        spec["width"] = spec["width"] * s
+        if spec.get("shift") is not None:
+            spec["shift"] = spec["shift"] * s
+    elif spec["kind"] == "exp":
+        spec["log_min"] = spec["log_min"] + math.log10(s)
+    return spec
+
+
+def gen_axis(rng, *, max_bins=7, allow_gaps=True, families=None, min_bins=1, scaled=0.0):
+    """A non-adaptive axis spec from one of the binning families (`scaled`: probability of a far-from-1 magnitude)."""
+    spec = _gen_axis(rng, max_bins=max_bins, allow_gaps=allow_gaps, families=families, min_bins=min_bins)
+    if scaled and rng.random() < scaled:
+        spec = scale_axis(spec, rng.choice(SCALES))
+    return spec
+
+
+def _gen_axis(rng, *, max_bins=7, allow_gaps=True, families=None, min_bins=1):
     fam = rng.choice(families or ["static", "static", "pairs", "numpy", "fixed", "fixed", "exp"])
-    n = rng.randint(1, max_bins)
+    n = rng.randint(min_bins, max_bins)
+    if fam == "exp":
+        n = min(n, 80)
     if fam == "pairs" and not allow_gaps:
         fam = "static"
     if fam == "static":
@@ -183,11 +212,17 @@ def draw_value(rng, pool, *, inside_only=False):
 
 
 WEIGHT_KINDS = ["none", "int", "dyadic", "float"]
+BIG_WEIGHTS = [2 ** 24 + 1, 2 ** 26 + 3, 2 ** 31 + 7]  # beyond float32 / int32; the last one only in float64 bins
 
 
 def draw_weight(rng, kind):
     if kind == "none":
         return None
+    if kind == "big":
+        # as floats: the squares (2**62) are in range, sums of them in int64 would not be
+        return float(rng.choice(BIG_WEIGHTS))
+    if kind == "big_i":
+        return rng.choice(BIG_WEIGHTS[:2])
     if kind == "int":
         return rng.randint(1, 4)
     if kind == "dyadic":
@@ -203,6 +238,10 @@ def pick_dtype(rng, weight_kind):
         return rng.choice(["int32", "int64", "float32", "float64", None])
     if weight_kind == "dyadic":
         return rng.choice(["float32", "float64", "float64", None])
+    if weight_kind == "big":
+        return "float64"
+    if weight_kind == "big_i":
+        return rng.choice(["int64", "int64", None])
     return rng.choice(["float64", "float64", None])
 
 
